@@ -80,6 +80,11 @@ def _init_worker(modname: str, fnname: str) -> None:
     from . import vloop
 
     vloop.install_seams()
+    # everything inherited from the parent (the whole job list) is long-lived: keep it out of the
+    # collections that executions run at fixed points
+    import gc
+
+    gc.freeze()
 
 
 def _call(job):
